@@ -199,7 +199,7 @@ def csrc(sd, rec):
     code = f.__code__.co_code
     if code not in _CODEIDS:
         _CODEIDS[code] = len(_CODEIDS) + 1
-    if sd["form"] == "def":
+    if sd["form"] in ("def", "defg"):
         return "(SDef %s %d %s)" % (cstr(sd.get("fname", "myfn")), _CODEIDS[code], e)
     # "lam" and "lamd" (a lambda with a default argument) are lambdas for the wrappers
     return "(SLam %d %s)" % (_CODEIDS[code], e)
